@@ -160,7 +160,11 @@ fn push(out: &mut Out, inp: Value) {
     out.emit(vec![ev], nt);
 }
 
-pub fn gen(out: &mut Out) {
+pub fn replay(run: &[Value], _sub: &str) -> Vec<Value> {
+    run.iter().map(exec).collect()
+}
+
+pub fn gen(out: &mut Out, _sub: &str) {
     let mut rng = Rng::new(out.seed ^ 0xC01);
     let thorough = !out.quick();
     // ---- width 1 -------------------------------------------------------------------------
